@@ -45,6 +45,10 @@ func (k msgServer) NewEthBlock(ctx context.Context, req *types.MsgNewEthBlock) (
 		return nil, errorsmod.Wrap(sdkerrors.ErrInvalidRequest, "empty payload")
 	}
 
+	if err := payload.Validate(); err != nil {
+		return nil, errorsmod.Wrap(sdkerrors.ErrInvalidRequest, err.Error())
+	}
+
 	if !bytes.Equal(block.BlockHash, payload.ParentHash) || block.BlockNumber+1 != payload.BlockNumber {
 		return nil, errorsmod.Wrap(sdkerrors.ErrInvalidRequest, "incorrect parent block")
 	}
